@@ -1908,10 +1908,9 @@ func (p *Parser) hasValidIdent() bool {
 		if p.val[end-1] == '+' && p.lang.in(langBashLike|LangMirBSDKorn|LangZsh) {
 			end-- // a+=x
 		}
-		if ValidName(p.val[:end]) {
-			return true
-		}
-	} else if !ValidName(p.val) {
+		return ValidName(p.val[:end]) // a=x, not +=x nor 1=x
+	}
+	if !ValidName(p.val) {
 		return false // *[i]=x
 	}
 	return p.r == '[' // a[i]=x
